@@ -13,15 +13,18 @@ demo = [f for f in os.listdir(src) if f.startswith("demo_") and f.endswith(".rs"
 mod = demo[:-3]
 howto = open(os.path.join(src, "demo_howto.txt")).read()
 in_src = ("src/" + demo) in howto
+rayon = "--features rayon" in howto
+FEAT = " --features rayon" if rayon else ""
+ENVP = "RAYON_NUM_THREADS=3 " if rayon else ""
 def clean(): sh("git checkout -- . && git clean -fdq tests src")
 def place():
     if in_src:
         shutil.copy(os.path.join(src, demo), os.path.join(wt, "src", demo))
         sh("sed -i 's|^mod keymaker;|mod keymaker;\\n#[cfg(test)]\\nmod %s;|' src/lib.rs" % mod)
-        return "cargo test --offline --lib %s 2>&1 | tail -25" % mod
+        return ENVP + "cargo test --offline%s --lib %s 2>&1 | tail -25" % (FEAT, mod)
     os.makedirs(os.path.join(wt, "tests"), exist_ok=True)
     shutil.copy(os.path.join(src, demo), os.path.join(wt, "tests", demo))
-    return "cargo test --offline --test %s 2>&1 | tail -25" % mod
+    return ENVP + "cargo test --offline%s --test %s 2>&1 | tail -25" % (FEAT, mod)
 res = {}
 clean()
 cmd = place()
